@@ -1,14 +1,16 @@
 #!/bin/bash
-# usage: trymut.sh <file-in-repo> <perl-substitution> <id> [<id>...]   (applies, runs quick checks, reverts)
+# usage: trymut.sh <file-in-repo> <perl-substitution> <id> [<id>...]
+# Applies a one-line mutation in a scratch worktree of /repo (never in /repo itself) and runs the quick checks against it.
 f="$1"; expr="$2"; shift 2
-cd /repo || exit 2
-git diff --quiet || { echo "repo dirty"; exit 2; }
+S=/tmp/mut/scratch
+if [ ! -d "$S" ]; then git -C /repo worktree add -q --detach "$S" HEAD || exit 2; fi
+cd "$S" || exit 2
+git checkout -q --detach "$(git -C /repo rev-parse HEAD)" 2>/dev/null; git checkout -q -- . ; git clean -qfd -e target
 perl -0pi -e "$expr" "$f"
 if git diff --quiet; then echo "MUTATION DID NOT APPLY"; exit 2; fi
 git diff | grep '^[+-]' | grep -v '^+++\|^---'
 for id in "$@"; do
-  out=$(cd /verif && timeout 1500 ./check $id quick 2>&1); rc=$?
-  echo "== $id rc=$rc"; echo "$out" | grep -E "VIOLATION|KNOWN|BUILD-FAILED|INCONCLUSIVE|HARNESS" | head -5
+  out=$(cd /verif && VERIF_REPO="$S" timeout 1500 ./check $id quick 2>&1); rc=$?
+  echo "== $id rc=$rc"; echo "$out" | grep -E "VIOLATION|KNOWN|BUILD-FAILED|INCONCLUSIVE|HARNESS" | head -5 | cut -c1-400
 done
-git checkout -- . 
-rm -rf /verif/replays
+git checkout -q -- .
